@@ -36,6 +36,20 @@ func ValueOf(query *Query, current Map, any any) (any, error) {
 					return flat, nil
 				}
 			}
+			// a column named with the table's own name (users.id FROM users),
+			// or without the table's alias (id FROM users u)
+			if rs == nil && query != nil {
+				switch name := string(value); {
+				case len(query.table) > 0 && strings.HasPrefix(name, query.table+"."):
+					if _, shadows := current[strings.SplitN(query.table, ".", 2)[0]]; !shadows {
+						return ExecReader(current, name[len(query.table)+1:])
+					}
+				case len(query.alias) > 0:
+					if row, ok := current[query.alias].(Map); ok && len(current) <= 2 {
+						return ExecReader(row, name)
+					}
+				}
+			}
 			// the name of a CTE that has not been read yet: its value is
 			// its rows, never the thunk that produces them
 			if cte, ok := rs.(CteEvaluation); ok {
